@@ -78,6 +78,7 @@ TraceNext ==
   \/ /\ l <= Len(Trace)
      /\ Consume(Trace[l])
      /\ Mark(l)
+     /\ (l = Len(Trace) => PrintT("@ACCEPTED") /\ TLCSet("exit", TRUE))   \* an explanation is complete: stop searching
      /\ l' = l + 1 /\ sil' = 0
   \/ /\ l <= Len(Trace) /\ sil < MaxSilent
      /\ Internal
